@@ -3,6 +3,7 @@ import NmVerif.Lemmas.LinalgMatmulV2
   Lemmas for vecdot / inner / dot / outer of C16.
 -/
 namespace NmVerif
+open NmVerif.MB
 open Linalg
 
 /-! ### vecdot -/
